@@ -273,19 +273,25 @@ def r3_6(ctx):
     p = ctx.p
     n = 0
     for fi in p.funcs_in("mbox"):
-        dels = [s for s in body_walk(fi.node) if isinstance(s, ast.Delete) and len(s.targets) == 1 and isinstance(s.targets[0], ast.Subscript) and norm(s.targets[0].value) in ("self.msg_keys", "self.uids")]
+        # a removal by position: `del self.uids[i]` or `self.uids.pop(i)` (as a statement or as the value of an assignment)
+        dels = []
+        for s in body_walk(fi.node):
+            if isinstance(s, ast.Delete) and len(s.targets) == 1 and isinstance(s.targets[0], ast.Subscript) and norm(s.targets[0].value) in ("self.msg_keys", "self.uids"):
+                dels.append((s, norm(s.targets[0].value), norm(s.targets[0].slice)))
+            elif isinstance(s, (ast.Expr, ast.Assign)) and isinstance(s.value, ast.Call) and call_name(s.value) == "pop" and len(s.value.args) == 1 and norm(call_recv(s.value)) in ("self.msg_keys", "self.uids"):
+                dels.append((s, norm(call_recv(s.value)), norm(s.value.args[0])))
         if not dels:
             continue
         ctx.analysed(fi)
         g = ctx.cfg(fi)
         by = {}
-        for d in dels:
-            by.setdefault(norm(d.targets[0].slice), {}).setdefault(norm(d.targets[0].value), d)
+        for d, lst, idx in dels:
+            by.setdefault(idx, {}).setdefault(lst, d)
         for idx, pair in sorted(by.items()):
             n += 1
             if len(pair) < 2:
                 only = next(iter(pair.values()))
-                ctx.bad("R3.6", fi.module, fi.qual, norm(only), f"position `{idx}` is removed from {norm(only.targets[0].value)} but not from its parallel list: every later UID names the next message", only.lineno)
+                ctx.bad("R3.6", fi.module, fi.qual, norm(only), f"position `{idx}` is removed from {next(iter(pair))} but not from its parallel list: every later UID names the next message", only.lineno)
                 continue
             na = [x for x in g.nodes_for(pair["self.msg_keys"]) if g.nodes[x].kind == "stmt"]
             nb = [x for x in g.nodes_for(pair["self.uids"]) if g.nodes[x].kind == "stmt"]
